@@ -859,13 +859,20 @@ class Node:
             self._reconnect_peers()
 
     def _receive_message(self, conn: PeerConnection, msg: _AnyMessageType):
-        if msg.header.is_request and hasattr(msg, "origin_host"):
+        has_origin_host = hasattr(msg, "origin_host")
+        origin_host = getattr(msg, "origin_host", None)
+        if isinstance(origin_host, list):
+            # a message without a python implementation exposes a repeated
+            # AVP as a list
+            origin_host = origin_host[0] if origin_host else None
+
+        if msg.header.is_request and has_origin_host:
             # Record who originally sent a request, as this information is lost
             # by the time an answer will go out
             message_id = (f"{msg.header.hop_by_hop_identifier}:"
                           f"{msg.header.end_to_end_identifier}")
             self._origin_waiting_answer[message_id] = (
-                msg.origin_host, time.time())
+                origin_host, time.time())
 
         peer = self._find_connection_peer(conn)
         if peer:
@@ -883,10 +890,10 @@ class Node:
                 return
 
         # rfc6733, 5.5.4, check for T flag and reject if already processed
-        if (hasattr(msg, "origin_host") and msg.header.is_request and
+        if (has_origin_host and msg.header.is_request and
                 msg.header.is_retransmit and
-                msg.origin_host in self._sent_answers and
-                msg.header.end_to_end_identifier in self._sent_answers[msg.origin_host]):
+                origin_host in self._sent_answers and
+                msg.header.end_to_end_identifier in self._sent_answers[origin_host]):
             self.logger.warning(
                 f"{conn} message is a retransmission of an already handled "
                 f"request, rejecting it")
